@@ -183,8 +183,13 @@ def check(run, ctx):
         if not any(a.annotation is not None and "ClassDef" in ast.unparse(a.annotation) for a in f.node.args.args):
             continue
         for n in ast.walk(f.node):
-            if isinstance(n, ast.Call) and call_name(n) == "isinstance" and len(n.args) == 2 and "FunctionDef" in ast.unparse(n.args[1]):
-                kinds = {x.attr for x in ast.walk(n.args[1]) if isinstance(x, ast.Attribute)} | {x.id for x in ast.walk(n.args[1]) if isinstance(x, ast.Name)}
+            if not (isinstance(n, ast.Call) and call_name(n) == "isinstance" and len(n.args) == 2):
+                continue
+            kexpr = n.args[1]
+            if isinstance(kexpr, ast.Name) and kexpr.id in f.module.assigns:   # the tuple of node classes hoisted to a module constant
+                kexpr = f.module.assigns[kexpr.id]
+            if "FunctionDef" in ast.unparse(kexpr):
+                kinds = {x.attr for x in ast.walk(kexpr) if isinstance(x, ast.Attribute)} | {x.id for x in ast.walk(kexpr) if isinstance(x, ast.Name)}
                 sym = f"{f.qual.replace('src.linters.dry.', '')}:{norm(n)}"
                 if {"FunctionDef", "AsyncFunctionDef"} <= kinds:
                     run.ok(D7, sym, "sync and async defs")
